@@ -10,8 +10,7 @@ PROP = dict(
                "answer identically, Schema() with options must be identical, and the answers must equal the reference model. Exploration: held on every "
                "generated history.",
     level_note="Trusted: Go toolchain, rapid, the ~150-line map model in c08_restart_test.go. Single node, <= 2 indexes x <= 5 fields, <= 40 steps, columns in "
-               "4 shards, 7 timestamps. Shapes owned by other groups' open defects are steered around (constants at the top of the test file: D14 D15 D16 D17 "
-               "D22 D25, range operators <,<=,>,>= are compared before/after only, Store into keyed fields and Rows(bool field) are not generated).",
+               "4 shards, 7 timestamps. While open finding DS6 (Store into a keyed field panics) is active, Store destinations are unkeyed fields; nothing else is steered around.",
     rule="rapid-generated histories of 4-40 operations drawn from {createField, deleteField, recreate field/index, Set, Clear, ClearRow, Store, Import, "
          "Import(clear), ImportValue, ImportRoaring, SetRowAttrs, SetColumnAttrs, Reopen}; every history ends with a Reopen. distinct = hash of the executed "
          "history (index names normalised). non-trivial = at some restart the data directory holds an int field whose bit depth has not grown (no value or "
@@ -20,7 +19,7 @@ PROP = dict(
     assumptions=["reference model: maps row->columns per view, column->value, attribute maps (c08_restart_test.go)",
                  "time-range probes use exactly one view interval (year/month/day/hour present in the quantum), both ends explicit",
                  "AvailableShardsByIndex is compared before/after exactly and against the model as: superset of shards holding data, subset of shards ever written",
-                 "TopN is only probed with explicit ids (exact counts) on fields not touched by clear-import/roaring import/Store/ClearRow (D14, other owner)"],
+                 "TopN is only probed with explicit ids (exact counts)"],
     tags=["gs"],
     units=[
         U("restart", "./server", "^TestVerifC08_Restart$", 128, 2400, sq=4, sth=12, timeout={"quick": 600, "thorough": 3000}),
